@@ -258,11 +258,36 @@ def load_module(prop_id):
     raise HarnessError(f"no check module for {prop_id}")
 
 
+def _install_cov(path):
+    """optional line coverage of the library (tools/libcov.py): VERIF_COV=<dir> dumps executed (file, line) pairs per shard"""
+    import atexit
+    import threading
+
+    seen = set()
+    prefix = os.path.join(REPO, "probables") + os.sep
+
+    def local(frame, event, arg):
+        if event == "line":
+            seen.add((frame.f_code.co_filename, frame.f_lineno))
+        return local
+
+    def glob(frame, event, arg):
+        if frame.f_code.co_filename.startswith(prefix):
+            seen.add((frame.f_code.co_filename, frame.f_lineno))
+            return local
+        return None
+
+    sys.settrace(glob)
+    threading.settrace(glob)
+    return seen
+
+
 def _shard_worker(args):
     prop_id, tier, seed, shard, nshards, n_cases, guards = args
     try:
         mod = load_module(prop_id)
         stats = ShardStats()
+        cov = _install_cov(os.environ["VERIF_COV"]) if os.environ.get("VERIF_COV") else None
         # exhaustive slices: every shard enumerates, runs its residue class
         for name, factory in getattr(mod, "exhaustive", lambda t: [])(tier):
             for i, case in enumerate(factory()):
@@ -293,6 +318,11 @@ def _shard_worker(args):
                 stats.add(case, ctx, failure)
 
             drive()
+        if cov is not None:
+            sys.settrace(None)
+            os.makedirs(os.environ["VERIF_COV"], exist_ok=True)
+            with open(os.path.join(os.environ["VERIF_COV"], "%s-%d.json" % (prop_id, shard)), "w") as f:
+                json.dump(sorted(cov), f)
         return ("ok", stats.as_dict())
     except BaseException as e:  # noqa
         return ("err", f"shard {shard}: {type(e).__name__}: {e}\n{traceback.format_exc()}")
